@@ -5,6 +5,7 @@ import ast
 
 from ..lifecycle import (FIT_METHODS, PREDICT_METHODS, config_attrs, estimator_classes, existence_tests, self_stores,
                          unpicklable)
+from ..model import AnalysisError
 from ..terms import FALSE, NONE, TRUE, T, const, const_value, contains, glob, mk, show, subterms
 from .common import (M_ADV, M_BGL, M_CR, M_EG, M_ER, M_GS, M_IT, M_LAG, M_MOMENT, M_TO, M_UP, Analysis, arg, calls_to,
                      dominates, kw, pc_literals)
@@ -63,10 +64,47 @@ def check(ctx):
     ctx.floor("R19.4", "predict-type methods of the subject estimators", n_pred, 11)
     from .c17 import r178_raw_output
     ctx.guard(r178_raw_output, ctx, "R19.9")  # repeatable prediction of the adversarial estimators: evaluation mode (shared with C17)
+    ctx.guard(_engine_rules, ctx)
     ctx.guard(_ctor_verbatim, ctx, subjects + (others if ctx.tier == "thorough" else []), subjects)
     ctx.guard(_latches, ctx)
     ctx.guard(_reload_completeness, ctx)
     ctx.guard(_pickle, ctx)
+
+
+def _engine_rules(ctx):
+    """The adversarial back ends are built inside fit through a class chosen at run time, so the life-cycle walk of
+    AdversarialFairness.fit does not reach them; their constructors are analysed here."""
+    from .common import M_BE, M_PT, M_TF
+    ctx.rule("R19.10", "each adversarial back end seeds its library's global generator from the estimator's random_state_ before "
+                       "BackendEngine.__init__ builds and initialises the networks (otherwise the initial weights depend on what the "
+                       "process drew before this fit); the engine methods are scanned for in-place updates of the configured models")
+    A = Analysis(ctx, max_depth=0)
+    n = 0
+    for mod, cname, seedfn in ((M_PT, "PytorchEngine", "torch.manual_seed"), (M_TF, "TensorflowEngine", "tensorflow.random.set_seed")):
+        cls = f"{mod}:{cname}"
+        r = A.run(cls + ".__init__", cls_ctx=cls)
+        base = r.params.get("base")
+        sup = [e for e in r.events if e.kind == "call" and e.data.get("callee") == M_BE + ":BackendEngine.__init__"]
+        seeds = [e for e in r.events if e.kind == "call" and e.data.get("callee") == seedfn]
+        ctx.require(len(sup) == 1, f"anchor vanished: super().__init__ call in {cname}.__init__")
+        n += 1
+        ok = len(seeds) >= 1 and seeds[0].seq < sup[0].seq and not [l for l in seeds[0].pc if l.op != "inloop"] and not seeds[0].loops \
+            and seeds[0].data["args"] and contains(seeds[0].data["args"][0], lambda s_: s_.op == "attr" and s_.args[1] == "random_state_"
+                                                   and s_.args[0] is base)
+        ctx.ob("R19.10", r.func, (seeds[0].node if seeds else sup[0].node), bool(ok), f"{cname} calls {seedfn}(<draw from "
+               "base.random_state_>) unconditionally before the networks are built" if ok else f"{cname} does not seed {seedfn.split('.')[0]} "
+               "from base.random_state_ before BackendEngine.__init__ builds the networks: list-specified networks are initialised from "
+               "the process-wide generator state, so a refit differs from a fresh fit", construct=f"{cname} seeds before building")
+    ctx.floor("R19.10", "back-end constructors", n, 2)
+    # bring the engine classes into the argument-purity scan (R19.P)
+    for mod, cname in ((M_BE, "BackendEngine"), (M_PT, "PytorchEngine"), (M_TF, "TensorflowEngine")):
+        cls = f"{mod}:{cname}"
+        for fq in sorted(ctx.prog.functions):
+            if fq.startswith(cls + "."):
+                try:
+                    A.run(fq, cls_ctx=cls)
+                except AnalysisError:
+                    pass  # a construct of an engine helper that is not modelled: the seeding obligation above does not depend on it
 
 
 def lifecycle_of(ctx, classes, alias: dict):
